@@ -208,7 +208,7 @@ func init() {
 												arms++
 											}
 										}
-										if gate == nil || arms != 2 || gate.End() > es.Pos() {
+										if gate == nil || arms != 2 || endOf(gate) > startOf(es) {
 											fresh = false
 										}
 									}
@@ -352,11 +352,11 @@ func init() {
 							continue
 						}
 						// returns positioned before the collector exists or before any add can have run
-						defPos := token.NoPos
+						defPos := 0
 						for _, d := range fi.defs[ec] {
-							defPos = d.node.Pos()
+							defPos = startOf(d.node)
 						}
-						if ret.Pos() < defPos {
+						if startOf(ret) < defPos {
 							r.Ok(k, ret.Pos(), "return precedes the collector")
 							continue
 						}
@@ -370,7 +370,7 @@ func init() {
 							// allowed when no add can precede it
 							early := true
 							for _, ad := range adds {
-								if ad.Pos() < ret.Pos() {
+								if startOf(ad) < startOf(ret) {
 									early = false
 								}
 								if l := fi.enclosingLoop(ret); l != nil && fi.within(ad, l) {
@@ -386,10 +386,10 @@ func init() {
 						}
 						late := false
 						for _, ad := range adds {
-							if ad.Pos() > guardAt.End() && ad.Pos() < ret.Pos() {
+							if startOf(ad) >= endOf(guardAt) && startOf(ad) < startOf(ret) {
 								late = true
 							}
-							if l := fi.enclosingLoop(ret); l != nil && fi.within(ad, l) && fi.within(guardAt, l) && ad.Pos() > ret.Pos() {
+							if l := fi.enclosingLoop(ret); l != nil && fi.within(ad, l) && fi.within(guardAt, l) && startOf(ad) > startOf(ret) {
 								late = true
 							}
 						}
@@ -642,7 +642,7 @@ func (fi *FuncInfo) errorHandled(call *ast.CallExpr, errIdx, nres int) (bool, st
 		}
 		// a use after the assignment in a test, return, add, append or log
 		for _, u := range fi.usesOf(v) {
-			if u.Pos() <= p.Pos() {
+			if startOf(u) <= startOf(p) {
 				continue
 			}
 			for q := fi.parent[u]; q != nil; q = fi.parent[q] {
@@ -673,7 +673,7 @@ func (fi *FuncInfo) errorHandled(call *ast.CallExpr, errIdx, nres int) (bool, st
 								if x, isNil, ok := fi.nilTest(g); ok && fi.varOf(x) == v && !isNil {
 									if terminates(q.Body) {
 										for _, u2 := range fi.usesOf(v) {
-											if u2.Pos() > q.End() {
+											if startOf(u2) >= endOf(q) {
 												return true, "tested; the code after the success guard uses the error"
 											}
 										}
